@@ -112,7 +112,7 @@ structure Cfg (σ β : Type) where
   visits : σ → List Int := fun _ => []
   drain : List Nat := []
 
-/-- parse `s0:5`, `s5`, `c0`, `r1`, `x`, `g5`, `z`, `v`, `a` -/
+/-- parse `s0:5`, `s5`, `c0`, `r1`, `x`, `g5`, `z`, `v`, `a`, `t1500` -/
 def parseMove (m : String) : Option (Sum (Move Int) String) :=
   let body := (m.drop 1).toString
   match m.get 0 with
@@ -128,6 +128,7 @@ def parseMove (m : String) : Option (Sum (Move Int) String) :=
   | 'z' => some (.inr "z")
   | 'v' => some (.inr "v")
   | 'a' => some (.inr "a")
+  | 't' => body.toNat?.map fun _ => .inr "t"   -- time passes: the (untimed) pool model does nothing
   | _ => none
 
 /-- successors of one state under one script move, each with the token the environment would see -/
@@ -135,6 +136,7 @@ def applyMove (c : Cfg σ β) (p : Pool σ Int β) (mv : String) : List (Pool σ
   match parseMove mv with
   | some (.inl (.recv k)) => (envNext c.st p (.recv k)).map fun (q, o) => (q, showObs c.R k o)
   | some (.inl m) => (envNext c.st p m).map fun (q, o) => (q, showObs c.R 0 o)
+  | some (.inr "t") => [(p, "ok")]
   | some (.inr "z") => [(p, toString (alive c.closerProc c.drain p))]
   | some (.inr "v") => [(p, "(" ++ ",".intercalate ((c.visits (match (p.ws 0).ctl with
         | .idle s => s | .calling s _ => s | .busy s _ _ => s | .exiting s _ _ => s | .exited s _ => s)).map toString) ++ ")")]
